@@ -14,6 +14,10 @@ pub struct Cfg {
     /// (threshold, stat_interval_ms)
     pub rules: Vec<(f64, u32)>,
     pub phase: u64,
+    /// a copy of the rules with every threshold + 1 is loaded first (no traffic in between): the
+    /// decisions must be those of a single load
+    #[serde(default)]
+    pub retuned: bool,
 }
 
 #[derive(Clone, Debug)]
@@ -94,24 +98,28 @@ impl Subject for C01 {
             e.exit();
         }
         reset_world(T0_MS + self.cfg.phase);
-        let rules: Vec<Arc<flow::Rule>> = self
-            .cfg
-            .rules
-            .iter()
-            .enumerate()
-            .map(|(i, (thr, iv))| {
-                Arc::new(flow::Rule {
-                    id: format!("r{}", i),
-                    resource: RES.into(),
-                    threshold: *thr,
-                    stat_interval_ms: *iv,
-                    calculate_strategy: flow::CalculateStrategy::Direct,
-                    control_strategy: flow::ControlStrategy::Reject,
-                    ..Default::default()
+        let mk = |bump: f64| -> Vec<Arc<flow::Rule>> {
+            self.cfg
+                .rules
+                .iter()
+                .enumerate()
+                .map(|(i, (thr, iv))| {
+                    Arc::new(flow::Rule {
+                        id: format!("r{}", i),
+                        resource: RES.into(),
+                        threshold: *thr + bump,
+                        stat_interval_ms: *iv,
+                        calculate_strategy: flow::CalculateStrategy::Direct,
+                        control_strategy: flow::ControlStrategy::Reject,
+                        ..Default::default()
+                    })
                 })
-            })
-            .collect();
-        flow::load_rules(rules);
+                .collect()
+        };
+        if self.cfg.retuned {
+            flow::load_rules(mk(1.0));
+        }
+        flow::load_rules(mk(0.0));
         self.log.clear();
         self.decisions.clear();
         self.rolled = false;
@@ -232,7 +240,7 @@ pub fn configs(thorough: bool) -> Vec<Cfg> {
     for iv in INTERVALS {
         for thr in THRESHOLDS {
             for ph in phases {
-                v.push(Cfg { rules: vec![(thr, iv)], phase: *ph });
+                v.push(Cfg { rules: vec![(thr, iv)], phase: *ph, retuned: false });
             }
         }
     }
@@ -245,8 +253,18 @@ pub fn configs(thorough: bool) -> Vec<Cfg> {
                 if !thorough && k % 7 != 0 {
                     continue;
                 }
-                v.push(Cfg { rules: vec![(ta, *a), (tb, *b)], phase: [0, 250, 499, 1][(k % 4) as usize] });
+                v.push(Cfg { rules: vec![(ta, *a), (tb, *b)], phase: [0, 250, 499, 1][(k % 4) as usize], retuned: k % 2 == 0 });
             }
+        }
+    }
+    // two rules on the SAME statistic interval (they may share or reuse one statistic), loaded
+    // once and loaded in two steps
+    for (i, iv) in INTERVALS.iter().enumerate() {
+        for retuned in [false, true] {
+            if !thorough && (i + retuned as usize) % 2 != 0 {
+                continue;
+            }
+            v.push(Cfg { rules: vec![(2.0, *iv), (3.0, *iv)], phase: [0, 499][i % 2], retuned });
         }
     }
     if thorough {
@@ -259,7 +277,7 @@ pub fn configs(thorough: bool) -> Vec<Cfg> {
                     if k % 2 != 0 {
                         continue;
                     }
-                    v.push(Cfg { rules: vec![(2.0, *a), (3.0, *b), (1.0, *c)], phase: [0, 250, 499, 1][(k % 4) as usize] });
+                    v.push(Cfg { rules: vec![(2.0, *a), (3.0, *b), (1.0, *c)], phase: [0, 250, 499, 1][(k % 4) as usize], retuned: k % 4 == 0 });
                 }
             }
         }
